@@ -1,7 +1,7 @@
 #!/bin/bash
 # usage: confirmseed.sh <Cxx/v>  — confirms a seeded change in a scratch worktree of /repo's HEAD:
 # applies, builds, runs the repo's tests, runs the demo with the change (must fail) and without (must pass).
-S="$1"; D=/tmp/seed-out/$S; W=/tmp/cs/$(echo $S | tr / -)
+S="$1"; D=${SEEDOUT:-/tmp/seed-out}/$S; W=/tmp/cs/$(echo $S | tr / -)
 rm -rf $W; git -C /repo worktree prune; git -C /repo worktree add -q --detach $W HEAD || exit 2
 res="seed=$S"
 cd $W
